@@ -30,7 +30,7 @@ ASSUMPTIONS = ["durability model is process death (what the kernel was handed su
                "ordering is not demanded", "stray temporary files next to data.json are permitted",
                "content equality is equality of the parsed JSON (NaN-aware), not byte equality"]
 PROBES = ["kill_mid_write", "kill_at_open", "kill_at_close_or_replace", "interrupt_in_save", "history_nonempty",
-          "many_events", "fanout_save"]
+          "many_events", "fanout_save", "e2e_solve_command"]
 TIERS = {
     "quick": {"runs": 2500, "wall": 40, "batch": 4, "shrink_s": 40},
     "thorough": {"runs": 500000, "wall": 1200, "batch": 8, "shrink_s": 120},
@@ -38,7 +38,10 @@ TIERS = {
 
 
 def preload() -> None:
+    import incomplete_cooperative.__main__  # noqa: F401
     import incomplete_cooperative.run.save  # noqa: F401
+    from .. import simpool
+    simpool.record_import_scalars()
 
 
 def _noop_saver(path, unique_name, output) -> None:
@@ -50,8 +53,9 @@ def run(sim: Sim) -> None:
     buf = sim.pick([-1, 8192, 512, 64, 16, 1], "buffer")
     fs = SimFS(sim, buffer_size=buf, write_through=bool(sim.choose(2, "write-through")))
     fs.short_every = sim.pick([0, 0, 3, 2], "short-every")
-    fanout = sim.flip(1, 5, "fanout")
-    sim.config.update(buffer=buf, write_through=fs.write_through, short_every=fs.short_every, fanout=fanout)
+    mode = sim.pick_weighted([("json", 7), ("fanout", 2), ("e2e", 1)], "mode")
+    fanout = mode != "json"
+    sim.config.update(buffer=buf, write_through=fs.write_through, short_every=fs.short_every, mode=mode)
     saved_savers = dict(save_mod.SAVERS)
     try:
         fs.install()
@@ -60,7 +64,7 @@ def run(sim: Sim) -> None:
                 if k != "data.json":
                     save_mod.SAVERS[k] = _noop_saver
             sim.probe("fanout_save")
-        _run(sim, fs, save_mod, fanout)
+        _run(sim, fs, save_mod, fanout, mode == "e2e")
     finally:
         save_mod.SAVERS.clear()
         save_mod.SAVERS.update(saved_savers)
@@ -74,7 +78,27 @@ def _do_save(save_mod, fs: SimFS, fanout: bool, model_dir: str, name: str, out) 
         save_mod.save_json(Path(model_dir) / "data.json", name, out)
 
 
-def _run(sim: Sim, fs: SimFS, save_mod, fanout: bool) -> None:
+def _e2e_victim(sim: Sim, model_dir: str, name: str):
+    """The victim save is the one issued at the end of a whole `solve` command."""
+    import incomplete_cooperative.__main__ as main_mod
+    from .. import simpool
+    gen = sim.pick(["factory", "noisy_factory", "xos", "graph_random"], "e2e-generator")
+    args = ["prog", "--number-of-players", "3", "--game-class", sim.pick(["superadditive", "superadditive_cached"], "e2e-class"),
+            "--game-generator", gen, "--run-steps-limit", str(1 + sim.choose(3, "e2e-limit")), "--model-dir", model_dir,
+            "--unique-name", name, "--seed", str(sim.choose(10 ** 6, "e2e-seed")),
+            "--parallel-environments", str(1 + sim.choose(3, "e2e-p")), "solve",
+            "--solve-repetitions", str(1 + sim.choose(4, "e2e-reps")), "--solver", sim.pick(["greedy", "largest", "random"], "e2e-solver")]
+    image = sim.pick(["fork", "fresh"], "e2e-image")
+    parser = main_mod.get_argument_parser()
+
+    def victim() -> None:
+        with simpool.installed(sim, image):
+            main_mod.main(parser, list(args))
+    sim.probe("e2e_solve_command")
+    return victim
+
+
+def _run(sim: Sim, fs: SimFS, save_mod, fanout: bool, e2e: bool = False) -> None:
     model_dir = os.path.join(fs.root, "model") if fanout else fs.root
     target_rel = os.path.join("model", "data.json") if fanout else "data.json"
     used: list[str] = []
@@ -97,10 +121,16 @@ def _run(sim: Sim, fs: SimFS, save_mod, fanout: bool) -> None:
         sim.fail("C20.fault_free_history_unparseable", prev)
     victim_name = sm.draw_name(sim, used, want_new=True)
     victim = sm.draw_output(sim, special=True, max_rows=10, max_cols=10)
+    if e2e:
+        victim_name = victim_name or "run"
+        do_victim = _e2e_victim(sim, model_dir, victim_name)
+    else:
+        def do_victim() -> None:
+            _do_save(save_mod, fs, fanout, model_dir, victim_name, victim)
     # learn the event list fault-free
     fs.begin_op()
     with sim.guard("C20.fault_free_save_raised"):
-        _do_save(save_mod, fs, fanout, model_dir, victim_name, victim)
+        do_victim()
     events = list(fs.events)
     new_raw = fs.read_real(target_rel)
     ok, new = sm.try_parse(new_raw)
@@ -132,7 +162,7 @@ def _run(sim: Sim, fs: SimFS, save_mod, fanout: bool) -> None:
             fs.begin_op(plan)
             outcome = "completed"
             try:
-                _do_save(save_mod, fs, fanout, model_dir, victim_name, victim)
+                do_victim()
             except SimKill:
                 outcome = "killed"
             except SimInterrupt:
